@@ -79,8 +79,10 @@ def classify(m):
     out = []
     if duty.startswith("ixfr-") and duty != "ixfr-denied" and m["nmsgs"] == 1 and m["rcs"] == [0] and m["answers"] == 0:
         return [("server:ixfr:noerror-without-answer", fields)]
+    # a whole-zone answer is judged as a transfer whatever asked for it (AXFR, or IXFR answered in full)
+    scope = "transfer" if best["alt"] == "transfer" else duty
     if "tc-clear" in failed:
-        out.append((f"server:{duty}:truncated", fields))
+        out.append((f"server:{scope}:truncated", fields))
         failed -= TRUNCATION_EXPLAINS
     for f in sorted(failed):
         fl = dict(fields)
@@ -88,7 +90,7 @@ def classify(m):
             fl["dups"] = ",".join(sorted({rr_type(d) for d in m["dups"]})) or "many"
         if f in ("only-zone-records", "nothing-foreign"):
             fl["foreign"] = len(m["foreignSent"])
-        out.append((f"server:{duty}:{f}", fl))
+        out.append((f"server:{scope}:{f}", fl))
     return out
 
 
